@@ -1,2 +1,3 @@
+@updater.deleter
 def spec(self):
     self.updater_ = None
